@@ -806,7 +806,84 @@ def record(seed, n, out_path):
             f.write(json.dumps(e) + "\n")
 
 
+def fplaws(out_path):
+    """C16 on values: fingerprint() is a function of contents only (equal lists -> equal fingerprints,
+    however they were built), element order matters, and distinct small lists get distinct fingerprints."""
+    F, ex = Fails(), 0
+    dom = [None, 0, 1, 2.5, "a"]
+    seen = {}
+    for n in range(0, 4):
+        for vals in itertools.product(dom, repeat=n):
+            vals = list(vals)
+            if n == 0:
+                continue
+            a = Vector(list(vals))
+            b = Vector(iter(vals), name="other name")
+            c = Vector(list(reversed(vals)))[::-1]
+            ex += 1
+            fa = a.fingerprint()
+            if fa != b.fingerprint() or fa != c.fingerprint() or fa != a.copy().fingerprint():
+                F.add("fp_value", {"values": repr(vals)}, "equal contents, different fingerprints", "equal")
+            # a single changed element, or the same elements in another order, must change the fingerprint
+            # (lists of different length are never compared: a write never changes the length)
+            for other, fo in seen.get(n, []):
+                diff = [i for i in range(n) if not A.same_value(other[i], vals[i])]
+                perm = sorted(map(repr, other)) == sorted(map(repr, vals))
+                if diff and (len(diff) == 1 or perm) and fo == fa:
+                    F.add("fp_order", {"values": repr(vals), "other": repr(other)}, "different contents, same fingerprint", "different")
+            seen.setdefault(n, []).append((vals, fa))
+    # tables: column order and cell position matter; equal tables built differently agree
+    for cols in itertools.product([[0, 1], [1, 0], [0, 0]], repeat=2):
+        t1 = Table({"x": list(cols[0]), "y": list(cols[1])})
+        t2 = Table([Vector(list(cols[0]), name="x"), Vector(list(cols[1]), name="y")])
+        ex += 1
+        if t1.fingerprint() != t2.fingerprint():
+            F.add("fp_value", {"table": cols}, "equal tables, different fingerprints", "equal")
+        sw = Table({"x": list(cols[1]), "y": list(cols[0])})
+        if cols[0] != cols[1] and sw.fingerprint() == t1.fingerprint():
+            F.add("fp_order", {"table": cols}, "columns swapped, same fingerprint", "different")
+    json.dump({"executed": ex, "failures": F.items, "per_clause": F.per, "skipped": F.skipped, "truth": [], "rule": [], "writeback": []},
+              open(out_path, "w"), default=str)
+
+
+def casts(out_path):
+    """cast / fillna / dropna results for the C03 monitor (the statement names them)"""
+    F, mon, ex = Fails(), Monitor(), 0
+    srcs = {"int": [1, None, 3], "float": [1.0, 2.5, None], "str": ["1", "22", None], "bool": [True, False, None],
+            "intfull": [4, 5, 6], "datestr": ["2020-01-02", None, "2021-03-04"]}
+    targets = [int, float, str, bool, complex, date]
+    for sname, vals in srcs.items():
+        for nonefree in (False, True):
+            data = [x for x in vals if x is not None] if nonefree else list(vals)
+            v = Vector(list(data), name="c")
+            for tgt in targets:
+                st, r, e = attempt(lambda: v.cast(tgt))
+                ex += 1
+                if st != "ok":
+                    continue               # Python cannot convert these elements: outside the claim
+                exp = [None if x is None else (date.fromisoformat(x) if tgt is date and isinstance(x, str) else tgt(x)) for x in data]
+                if not views_equal(list(r), exp):
+                    F.add("cast_values", {"source": sname, "target": tgt.__name__}, [repr(x) for x in r], [repr(x) for x in exp])
+                mon.see(r, "cast(" + tgt.__name__ + ")")
+            for fv in (0, 1.5, "z", True):
+                st, r, e = attempt(lambda: v.fillna(fv))
+                ex += 1
+                if st == "ok":
+                    mon.see(r, "fillna(" + type(fv).__name__ + ")")
+            st, r, e = attempt(lambda: v.dropna())
+            if st == "ok":
+                mon.see(r, "dropna()")
+            st, r, e = attempt(lambda: v.to_object())
+            if st == "ok":
+                mon.see(r, "to_object()")
+    json.dump({"executed": ex, "failures": F.items, "per_clause": F.per, "skipped": F.skipped, **mon.dump()}, open(out_path, "w"), default=str)
+
+
 def main():
+    if sys.argv[1] == "fplaws":
+        return fplaws(sys.argv[2])
+    if sys.argv[1] == "casts":
+        return casts(sys.argv[2])
     if sys.argv[1] == "record":
         return record(int(sys.argv[2]), int(sys.argv[3]), sys.argv[4])
     suite, cases_path, out_path = sys.argv[2], sys.argv[3], sys.argv[4]
